@@ -23,6 +23,7 @@ import (
 	"math"
 	"runtime/metrics"
 	"sort"
+	"strings"
 
 	"github.com/ctessum/geom"
 	"github.com/ctessum/geom/encoding/geojson"
@@ -870,6 +871,13 @@ func (r *run) wkbItem(stream bool) {
 	}
 }
 
+func step0(n int) int {
+	if n > 1024 {
+		return 1 + n/512
+	}
+	return 1
+}
+
 // streamFaults drives wkb.Read through the simulated reader.
 func (r *run) streamFaults(item []byte) {
 	// fault-free consumption and result
@@ -923,6 +931,36 @@ func (r *run) streamFaults(item []byte) {
 	for _, s := range scheds {
 		try("reader-chunking", s, -1, nil)
 	}
+	// lost tail on a medium whose reader hands out the last bytes together
+	// with io.EOF (allowed by the io.Reader contract), at every offset and
+	// with chunk sizes that do and do not divide the element size
+	full := item
+	for k := 0; k < len(full) && r.res.Viol == nil; k += step0(len(full)) {
+		for _, ch := range []int{0, 5, 19} {
+			item = full[:k]
+			rd := &simReader{data: item, chunk: ch, failAt: -1, eofWithData: true}
+			key := uint64(core.NewHasher().Str("stream-trunc").Str(string(item)).Int(ch))
+			r.note("reader-truncated-eof-with-data", true, key)
+			var g geom.Geom
+			var err error
+			before := allocated()
+			p, v, st := core.Protect(func() { g, err = wkb.Read(rd) })
+			used := allocated() - before
+			r.log.EventInts("stream.trunc-eof-data", int64(k), int64(ch), b2i(err == nil))
+			if p {
+				r.fail("panic", "wkb.Read,reader-truncated-eof-with-data", "wkb.Read panicked on a stream cut after %d of %d bytes whose reader returns its last chunk (chunk size %d) together with io.EOF: %v %s", k, len(full), ch, v, core.TrimStack(st, 4))
+			} else if used > budget(len(item)) {
+				r.fail("alloc-unbounded", "wkb.Read,reader-truncated-eof-with-data", "wkb.Read allocated %d bytes for a %d-byte stream", used, len(item))
+			} else if err == nil {
+				if s := wellFormed(g, true); s != "" {
+					r.fail("neither-geometry-nor-error", "wkb.Read,reader-truncated-eof-with-data", "wkb.Read returned (%v, nil): %s", g, s)
+				} else if k < consumed {
+					r.res.Probe("success-despite-reader-fault-inside-consumed-range")
+				}
+			}
+		}
+	}
+	item = full
 	step := 1
 	if len(item) > 1024 {
 		step = 1 + len(item)/512
@@ -1386,13 +1424,13 @@ func (r *run) skewedJSON() {
 		}
 		return string(b)
 	}
-	for i := 0; i < 6 && r.res.Viol == nil; i++ {
+	for i := 0; i < 8 && r.res.Viol == nil; i++ {
 		typ := []string{"Point", "MultiPoint", "LineString", "MultiLineString", "Polygon", "MultiPolygon"}[t.Choose(6, "skew-type")]
 		k := 1 + t.Choose(6000, "skew-k")
 		m := 1 + t.Choose(6000, "skew-m")
 		wrap := t.Choose(3, "skew-wrap")
 		var coords string
-		switch t.Choose(7, "skew-shape") {
+		switch t.Choose(14, "skew-shape") {
 		case 0: // one long position then many empty ones
 			coords = "[" + num(k) + "," + rep("[]", m) + "]"
 		case 1: // many empty ones then a long one
@@ -1405,9 +1443,26 @@ func (r *run) skewedJSON() {
 			coords = "[" + rep("[1,2]", k) + "]"
 		case 5: // many one-element members
 			coords = "[" + rep("[[1,2]]", m) + "]"
-		default: // long first ring of long positions
+		case 6: // long first ring of long positions
 			kk := 1 + k/50
 			coords = "[" + rep(num(kk), 1+m/50) + "]"
+		case 7: // a first member with many positions, then many empty members
+			coords = "[[" + rep("[1,2]", k) + "]," + rep("[]", m) + "]"
+		case 8: // a first member with many positions, then many one-position members
+			coords = "[[" + rep("[1,2]", k) + "]," + rep("[[3,4]]", m/3+1) + "]"
+		case 9: // many one-position members, then one with many positions
+			coords = "[" + rep("[[3,4]]", m/3+1) + ",[" + rep("[1,2]", k) + "]]"
+		default: // many well-formed members and a single malformed one somewhere
+			member := []string{"[1,2]", "[[1,2],[3,4]]", "[[[1,2],[3,4],[5,6],[1,2]]]"}[t.Choose(3, "skew-member")]
+			bad := []string{"[0.5]", "[[1,2],[3]]", "[[[1,2],[3,4,5]]]", "null", "\"x\"", "[[]]", "{}"}[t.Choose(7, "skew-bad")]
+			n := 2 + t.Choose(1500, "skew-members")
+			at := t.Choose(n, "skew-bad-at")
+			parts := make([]string, n)
+			for j := range parts {
+				parts[j] = member
+			}
+			parts[at] = bad
+			coords = "[" + strings.Join(parts, ",") + "]"
 		}
 		for w := 0; w < wrap; w++ {
 			coords = "[" + coords + "]"
